@@ -592,6 +592,57 @@ def fixed_cases(ctx: Ctx):
                         "x": wire(gen_x(rng, cfg, (0, 1, 2))), "model": spec})
 
 
+# (past, [(key, total channels, [(dynamic fields c, constant fields m), ...]), ...]): per type every split has
+# c * past + m = total channels, so all the inputs of one group have the SAME signature (types, channel counts)
+SPLIT_GROUPS = [
+    (2, [((0, 0), 6, [(2, 2), (3, 0), (1, 4)]), ((1, 0), 2, [(1, 0), (1, 0), (1, 0)])]),
+    (1, [((0, 0), 3, [(1, 2), (3, 0), (2, 1)]), ((1, 0), 3, [(2, 1), (3, 0), (1, 2)])]),
+    (3, [((1, 0), 7, [(2, 1), (1, 4)]), ((0, 1), 3, [(1, 0), (0, 3)])]),
+    (2, [((0, 0), 5, [(2, 1), (1, 3)]), ((1, 1), 4, [(2, 0), (1, 2)]), ((0, 1), 2, [(0, 2), (1, 0)])]),
+    (4, [((2, 0), 9, [(2, 1), (1, 5)]), ((0, 0), 4, [(1, 0), (1, 0)])]),
+    (1, [((0, 0), 2, [(2, 0), (1, 1)])]),
+]
+
+
+def split_family(ctx: Ctx):
+    """same signature, different dynamic/constant split, consecutive calls in one process: the window update is a
+    function of (input, prediction, past_steps, constant_fields_dict) alone, not of what was called before with an
+    input of the same shape.  Every group is run on two signatures (the type insertion order and its reverse), the
+    splits once in the listed order and once in the opposite order; every call is judged by check_step /
+    check_rollout (oracle = the property's sentence, cross-checked against the Lean spec).  A violation carries the
+    earlier calls of its sequence as `preceded_by`, so that the replay re-creates the process history."""
+    rng = ctx.rng
+    for gi, (past, types) in enumerate(SPLIT_GROUPS):
+        n_split = len(types[0][2])
+        for rev in (False, True):
+            order = tuple(range(len(types)))[::-1] if rev else tuple(range(len(types)))
+            split_ids = list(range(n_split))[::-1] if rev else list(range(n_split))
+            history = []
+            for si in split_ids:
+                cfg = {"past": past, "n": 3,
+                       "types": [{"key": key, "c": sp[si][0], "m": sp[si][1]} for key, _, sp in types]}
+                assert all(t["c"] * past + t["m"] == L for t, (_, L, _) in zip(cfg["types"], types))
+                consts = {t["key"]: t["m"] for t in cfg["types"] if t["m"] > 0}
+                x_items = gen_x(rng, cfg, order)
+                step = {"kind": "step", "past": past, "consts": wire_consts(consts), "input": wire(x_items),
+                        "output": wire(gen_output(rng, cfg, extra=False))}
+                roll = {"kind": "rollout", "past": past, "n": 3, "s": int(rng.integers(0, 5)),
+                        "consts": wire_consts(consts), "x": wire(x_items),
+                        "model": gen_model(rng, cfg, order, bool((gi + si) % 2))}
+                ctx.hist("split_family", f"past{past} " + " ".join(
+                    f"{t['key']}:{L}={t['c']}x{past}+{t['m']}" for t, (_, L, _) in zip(cfg["types"], types)))
+                for call, fn in ((step, check_step), (roll, check_rollout)):
+                    n0 = len(ctx.violations)
+                    fn(ctx, call)
+                    for v in ctx.violations[n0:]:
+                        v["case"] = dict(v["case"], family="same signature, different constant split, consecutive calls",
+                                         preceded_by=list(history))
+                        if history:
+                            v["what"] += (f" [call {len(history) + 1} of a sequence of calls in one process whose inputs "
+                                          "have the same signature and past_steps but another dynamic/constant split]")
+                    history.append(call)
+
+
 def run(ctx: Ctx):
     ctx.rule = (
         "rollouts through ml.autoregressive_map with a history-sensitive integer model (weights 1,10,100,.. on the "
@@ -604,7 +655,9 @@ def run(ctx: Ctx):
         "rollouts use the model as an eqx.Module with an `inference` switch that is off; a quarter of the steps are repeated with an "
         "int32 window and float32 half-integer predictions; each input also goes through one "
         "direct ml.autoregressive_step with a random prediction (shuffled keys, sometimes extra types); plus a "
-        "malformed stream compared as rejected/accepted. Non-trivial = past >= 2 and >= 2 types (and n >= 2 for "
+        "malformed stream compared as rejected/accepted; plus a family 'same signature, different dynamic/constant split, "
+        "consecutive calls in one process' (6 groups of (past, channel counts), 2-3 splits each, both call orders, one step "
+        "and one 3-step rollout per split). Non-trivial = past >= 2 and >= 2 types (and n >= 2 for "
         "rollouts); distinct = distinct full input."
     )
     ctx.assumptions = [
@@ -620,10 +673,13 @@ def run(ctx: Ctx):
     fixed_cases(ctx)
     rollout_stream(ctx, 60 if quick else 500, all_orders=True, cap=24)
     malformed_stream(ctx, 3 if quick else 25)
+    split_family(ctx)
 
 
 def replay(ctx: Ctx, rep):
     case = rep.get("case", {})
+    for prior in case.get("preceded_by", []):  # re-create the process history the case was observed in
+        (check_rollout if prior.get("kind") == "rollout" else check_step)(ctx, prior, count=False)
     case = {k: v for k, v in case.items() if k in
             ("kind", "past", "n", "s", "consts", "x", "model", "input", "output", "future", "malformed")}
     if case.get("kind") == "rollout":
